@@ -79,7 +79,19 @@ let serr_s = function EInvalidTransaction -> "InvalidTransaction" | EInvalidDate
   | EMissingFmv -> "MissingFmv" | EUnsupported -> "Unsupported"
 let rec int_of_nat = function O -> 0 | S k -> 1 + int_of_nat k
 
+let loaderr_s = function BadFileName -> "BadFileName" | BadPeriod -> "BadPeriod" | PeriodMismatch -> "PeriodMismatch"
+  | NonPositiveRate c -> "NonPositiveRate " ^ string_of_text c
+let jop (o : qc op) = match o with
+  | Buy (a, p, f) -> Printf.sprintf "[\"BUY\",%s,%s,%s]" (jq a) (jq p) (jq f)
+  | Sell (a, p, f) -> Printf.sprintf "[\"SELL\",%s,%s,%s]" (jq a) (jq p) (jq f)
+  | Dividend (v, x) -> Printf.sprintf "[\"DIVIDEND\",%s,%s]" (jq v) (jq x)
+  | CapReturn (a, v, f) -> Printf.sprintf "[\"CAPRETURN\",%s,%s,%s]" (jq a) (jq v) (jq f)
+  | Accumulation (a, v, x) -> Printf.sprintf "[\"ACCUMULATION\",%s,%s,%s]" (jq a) (jq v) (jq x)
+  | Split r -> Printf.sprintf "[\"SPLIT\",%s]" (jq r)
+  | Unsplit r -> Printf.sprintf "[\"UNSPLIT\",%s]" (jq r)
+
 let () =
+  let fxc = ref [] and ftx = ref [] and rfiles = ref [] and cur_rates = ref [] in
   let rows = ref [] and awards = ref None and cur_details = ref [] in
   let dtx = ref [] in
   let txs = ref [] and exs = ref [] and yf = ref None and id = ref "" in
@@ -89,7 +101,38 @@ let () =
     let t = String.split_on_char ' ' (String.trim line) in
     let q = qc_of_string in
     match t with
-    | ["CASE"; i] -> reset (); dtx := []; rows := []; awards := None; cur_details := []; id := i
+    | ["CASE"; i] -> reset (); dtx := []; rows := []; fxc := []; ftx := []; rfiles := []; cur_rates := []; awards := None; cur_details := []; id := i
+    | ["FX"; c; y; m; r] -> fxc := (((text_of_string c, z_of_string y), z_of_string m), qc_of_string r) :: !fxc
+    | "FTX" :: y :: m :: d :: tick :: rest ->
+        let a v c = { am_val = qc_of_string v; am_cur = text_of_string c } in
+        let o = (match rest with
+          | ["BUY"; q; v; vc; x; xc] -> Buy (qc_of_string q, a v vc, a x xc)
+          | ["SELL"; q; v; vc; x; xc] -> Sell (qc_of_string q, a v vc, a x xc)
+          | ["DIVIDEND"; v; vc; x; xc] -> Dividend (a v vc, a x xc)
+          | ["CAPRETURN"; q; v; vc; x; xc] -> CapReturn (qc_of_string q, a v vc, a x xc)
+          | ["ACCUMULATION"; q; v; vc; x; xc] -> Accumulation (qc_of_string q, a v vc, a x xc)
+          | ["SPLIT"; r] -> Split (qc_of_string r)
+          | ["UNSPLIT"; r] -> Unsplit (qc_of_string r)
+          | _ -> failwith ("bad ftx: " ^ line)) in
+        ftx := { ft_date = { dy = z_of_string y; dm = z_of_string m; dd = z_of_string d }; ft_tick = coq_of_string tick; ft_op = o } :: !ftx
+    | ["RUN"; "fx_convert"] ->
+        (match ledger_to_gbp !fxc (List.rev !ftx) with
+         | Inl (MissingFx (c, y, m)) -> Printf.printf "{\"id\":%s,\"ok\":false,\"cur\":%s,\"year\":%s,\"month\":%s}\n" (js !id) (js (string_of_text c)) (string_of_z y) (string_of_z m)
+         | Inr gs -> Printf.printf "{\"id\":%s,\"ok\":true,\"ops\":%s}\n" (js !id) (jlist (fun (g : qc txn) -> jop g.t_op) gs))
+    | ["RF"; mtime; ny; nm; py; pm] ->
+        (* a rate file closes the RR lines written before it; "-" marks an unreadable name / period *)
+        let ym a b = if a = "-" then None else Some (z_of_string a, z_of_string b) in
+        rfiles := { f_mtime = z_of_string mtime; f_name_ym = ym ny nm; f_period_ym = ym py pm; f_rates = List.rev !cur_rates } :: !rfiles;
+        cur_rates := []
+    | ["RR"; c; r] -> cur_rates := (text_of_string c, qc_of_string r) :: !cur_rates
+    | "RUN" :: "fx_load" :: queries ->
+        (match load_with_overrides !fxc (List.rev !rfiles) with
+         | Inl e -> Printf.printf "{\"id\":%s,\"ok\":false,\"why\":%s}\n" (js !id) (js (loaderr_s e))
+         | Inr c ->
+            let ans = List.map (fun q -> match String.split_on_char ':' q with
+              | [cc; y; m] -> (match lookup c ((text_of_string cc, z_of_string y), z_of_string m) with Some r -> jq r | None -> "null")
+              | _ -> "null") queries in
+            Printf.printf "{\"id\":%s,\"ok\":true,\"rates\":[%s]}\n" (js !id) (String.concat "," ans))
     | ["ROW"; a; d; sy; de; q; p; f; am] ->
         rows := { r_action = opt_field a; r_date = opt_field d; r_symbol = opt_field sy; r_desc = opt_field de;
                   r_qty = opt_field q; r_price = opt_field p; r_fees = opt_field f; r_amount = opt_field am } :: !rows
